@@ -1,1 +1,214 @@
-fn main() { println!("hi"); }
+//! `sweep` — differential witness searcher for crypto-bigint against a `num-bigint` oracle.
+//!
+//! This tool is run only *after* a deductive proof obligation of a property has failed; it looks
+//! for a concrete failing input on the real code so that the violation report can carry a
+//! replayable witness. It never decides a property: "nothing found" (exit 3) means nothing.
+//!
+//! ```text
+//! sweep <PROP> [--seed N] [--iters N] [--max-fail K] [--filter <substring>] [--cap N] [--list]
+//! sweep --self-test [--seed N] [--iters N]
+//! ```
+//! Exit codes of a sweep: 0 = at least one failure found (witness lines on stdout, one JSON object
+//! per line), 3 = none found, 2 = usage error. `--self-test`: 0 = every property ran clean,
+//! 1 = some property produced a failure, 2 = usage error.
+
+mod conv;
+mod ctx;
+mod generate;
+mod props;
+mod show;
+#[cfg(test)]
+mod selftest_wrong_oracle;
+
+use ctx::{Ctx, Sink};
+use std::time::Instant;
+
+const USAGE: &str = "usage: sweep <C02..C20> [--seed N] [--iters N] [--max-fail K] [--filter <substring>] [--cap N] [--list]\n       sweep --self-test [--seed N] [--iters N] [--cap N]";
+
+struct Opts {
+    prop: Option<String>,
+    self_test: bool,
+    list: bool,
+    seed: u64,
+    iters: Option<usize>,
+    max_fail: usize,
+    cap: Option<usize>,
+    filter: Option<String>,
+}
+
+fn parse_num(s: &str) -> Option<u64> {
+    if let Some(h) = s.strip_prefix("0x") { u64::from_str_radix(h, 16).ok() } else { s.parse().ok() }
+}
+
+fn parse(args: &[String]) -> Result<Opts, String> {
+    let mut o = Opts { prop: None, self_test: false, list: false, seed: 1, iters: None, max_fail: 3, cap: None, filter: None };
+    let mut i = 0;
+    while i < args.len() {
+        let a = args[i].as_str();
+        let mut val = |i: &mut usize| -> Result<String, String> {
+            *i += 1;
+            args.get(*i).cloned().ok_or_else(|| format!("missing value after {}", a))
+        };
+        match a {
+            "--self-test" => o.self_test = true,
+            "--list" => o.list = true,
+            "--seed" => o.seed = parse_num(&val(&mut i)?).ok_or("bad --seed")?,
+            "--iters" => o.iters = Some(parse_num(&val(&mut i)?).ok_or("bad --iters")? as usize),
+            "--max-fail" => o.max_fail = parse_num(&val(&mut i)?).ok_or("bad --max-fail")? as usize,
+            "--cap" => o.cap = Some(parse_num(&val(&mut i)?).ok_or("bad --cap")? as usize),
+            "--filter" => o.filter = Some(val(&mut i)?),
+            "-h" | "--help" => return Err(String::new()),
+            _ if a.starts_with('-') => return Err(format!("unknown option {}", a)),
+            _ => {
+                if o.prop.is_some() {
+                    return Err(format!("unexpected argument {}", a));
+                }
+                o.prop = Some(a.to_string());
+            }
+        }
+        i += 1;
+    }
+    if o.max_fail == 0 {
+        return Err("--max-fail must be >= 1".into());
+    }
+    if o.self_test == o.prop.is_some() {
+        return Err("give exactly one of <PROP> and --self-test".into());
+    }
+    Ok(o)
+}
+
+/// Result of sweeping one property.
+pub struct Summary {
+    pub prop: String,
+    pub cases: usize,
+    pub checks: u64,
+    pub fails: usize,
+    pub known: usize,
+    pub secs: f64,
+    pub lines: Vec<String>,
+}
+
+/// Run all (filtered) cases of a property.
+pub fn sweep(prop: &str, seed: u64, iters: usize, cap: usize, max_fail: usize, filter: Option<&str>, buffer: bool) -> Option<Summary> {
+    let cases = props::cases(prop)?;
+    let mut c = Ctx::new(prop, seed, iters, max_fail);
+    c.cap = cap;
+    c.panic_only = prop == "C11";
+    if buffer {
+        c.sink = Sink::Buffer(Vec::new());
+    }
+    let t0 = Instant::now();
+    let mut n = 0;
+    for case in &cases {
+        if let Some(f) = filter {
+            if !case.name.contains(f) {
+                continue;
+            }
+        }
+        n += 1;
+        c.begin_case(&case.name);
+        // a panic in the harness itself (outside `call`) must not kill the sweep silently
+        let r = ctx::call(|| (case.run)(&mut c));
+        if let Err(p) = r {
+            c.known = None;
+            c.report(&[], None, "harness completes".into(), Some(format!("harness panic (bug in sweep or unguarded crate call): {}", p)));
+        }
+    }
+    let lines = match std::mem::replace(&mut c.sink, Sink::Stdout) {
+        Sink::Buffer(v) => v,
+        Sink::Stdout => Vec::new(),
+    };
+    Some(Summary { prop: prop.to_string(), cases: n, checks: c.checks, fails: c.total_fails, known: c.total_known, secs: t0.elapsed().as_secs_f64(), lines })
+}
+
+fn self_test(o: &Opts) -> i32 {
+    let iters = o.iters.unwrap_or(200);
+    let cap = o.cap.unwrap_or(1024);
+    let t0 = Instant::now();
+    let seed = o.seed;
+    let max_fail = o.max_fail;
+    // properties are independent: run them on threads
+    let results: Vec<Summary> = std::thread::scope(|s| {
+        let hs: Vec<_> = props::PROPS
+            .iter()
+            .map(|p| {
+                std::thread::Builder::new()
+                    .stack_size(64 << 20)
+                    .spawn_scoped(s, move || sweep(p, seed, iters, cap, max_fail, None, true).unwrap())
+                    .unwrap()
+            })
+            .collect();
+        hs.into_iter().map(|h| h.join().expect("sweep thread")).collect()
+    });
+    println!("{:<5} {:>6} {:>12} {:>9} {:>6} {:>8}", "prop", "cases", "checks", "failures", "known", "seconds");
+    let mut bad = 0;
+    for r in &results {
+        println!("{:<5} {:>6} {:>12} {:>9} {:>6} {:>8.2}", r.prop, r.cases, r.checks, r.fails, r.known, r.secs);
+        bad += r.fails;
+    }
+    let (tc, tk): (usize, u64) = (results.iter().map(|r| r.cases).sum(), results.iter().map(|r| r.checks).sum());
+    println!("{:<5} {:>6} {:>12} {:>9} {:>6} {:>8.2}  (wall clock, iters={}, cap={}, seed={})", "total", tc, tk, bad, results.iter().map(|r| r.known).sum::<usize>(), t0.elapsed().as_secs_f64(), iters, cap, seed);
+    for r in &results {
+        for l in &r.lines {
+            println!("{}", l);
+        }
+    }
+    if bad > 0 { 1 } else { 0 }
+}
+
+fn main() {
+    assert_eq!(crypto_bigint::Limb::BITS, 64, "sweep assumes 64-bit limbs");
+    let args: Vec<String> = std::env::args().skip(1).collect();
+    let o = match parse(&args) {
+        Ok(o) => o,
+        Err(e) => {
+            if !e.is_empty() {
+                eprintln!("sweep: {}", e);
+            }
+            eprintln!("{}", USAGE);
+            std::process::exit(2);
+        }
+    };
+    ctx::install_silent_hook();
+    if o.self_test {
+        std::process::exit(self_test(&o));
+    }
+    let prop = o.prop.clone().unwrap();
+    if o.list {
+        match props::cases(&prop) {
+            Some(cs) => {
+                for c in cs {
+                    println!("{}", c.name);
+                }
+                std::process::exit(0);
+            }
+            None => {
+                eprintln!("sweep: unknown property {}\n{}", prop, USAGE);
+                std::process::exit(2);
+            }
+        }
+    }
+    // the case functions build corpora of a few thousand big values and some recurse: be generous
+    let o_iters = o.iters.unwrap_or(2000);
+    let o_cap = o.cap.unwrap_or(4096);
+    let filter = o.filter.clone();
+    let (seed, max_fail) = (o.seed, o.max_fail);
+    let p2 = prop.clone();
+    let h = std::thread::Builder::new()
+        .stack_size(64 << 20)
+        .spawn(move || sweep(&p2, seed, o_iters, o_cap, max_fail, filter.as_deref(), false))
+        .unwrap();
+    let r = match h.join().expect("sweep thread") {
+        Some(r) => r,
+        None => {
+            eprintln!("sweep: unknown property {}\n{}", prop, USAGE);
+            std::process::exit(2);
+        }
+    };
+    if r.cases == 0 {
+        eprintln!("sweep: no case of {} matches the filter", prop);
+        std::process::exit(2);
+    }
+    eprintln!("sweep {}: {} cases, {} checks, {} failures, {} known-finding hits, {:.2}s (seed={}, iters={}, cap={})", r.prop, r.cases, r.checks, r.fails, r.known, r.secs, seed, o_iters, o_cap);
+    std::process::exit(if r.fails > 0 { 0 } else { 3 });
+}
